@@ -93,6 +93,7 @@ def showRes (st : St) : AddRes → String
   | .none => "none"
   | .ev .firstShred => "none"
   | .ev e => showEvent st e
+  | .err .wrongType => "wrongtype"
   | .err .duplicate => "dup"
   | .err .equivocation => "equiv"
   | .err .invalidShred => "invalidshred"
